@@ -615,6 +615,14 @@ def step (toks : List String) : String :=
     match r.2.1 with
     | some k => s!"refused@{k}"
     | none => "accepted"
+  | "ovw" :: _name :: e1 :: g1 :: h1 :: n1 :: b1 :: c1 :: st1 :: sl1 :: e2 :: g2 :: h2 :: n2 :: b2 :: c2 :: st2 :: sl2 :: [] =>
+    -- fixed witness of known finding F28: is the exact number `swap_on_chunks` should compare with its draw >= 1?
+    let mk (e g h n b c st sl : String) : Replica IsingH :=
+      { ham := isingKind.parse [e, g, h, n], beta := parseRat b, offset := 0, rng := 0, bw := 0,
+        cutoff := parseNat c, cfg := { state := parseBits st, slots := parseSlots sl } }
+    let a := mk e1 g1 h1 n1 b1 c1 st1 sl1
+    let b := mk e2 g2 h2 n2 b2 c2 st2 sl2
+    if 1 ≤ pSwap isingIface a b (!(hamEqIsing a.ham b.ham)) then "ge1" else "lt1"
   | "cons" :: toks =>
     -- periodic world lines of the final configurations of a ladder: `<state> <slots>` per replica
     let rec go : List String → List Bool
